@@ -36,7 +36,9 @@ META = {
     "level_text": "Generated (period, start, clock sequence) cases drive the real _update_next; every deadline it produces is "
                   "checked with fractions.Fraction on the float inputs (strictly later than the previous one, integer multiple "
                   "of the period per step and globally on start+k*period, not before now, at most one period after a "
-                  "non-backward reading) with tolerances counted in ulps from the operations executed. Real runs on the "
+                  "non-backward reading) with tolerances counted in ulps from the operations executed. With jitter the grid "
+                  "clauses do not apply (the statement's own exclusion) but the others do: later than the previous deadline, "
+                  "not before now, at most period*(1+jitter/2) after a non-backward reading. Real runs on the "
                   "virtual loop check non-overlap of coroutine callbacks, no run after stop and a scheduled next run while running.",
     "level_note": "The 'exact rationals for the proof obligations' half of the quantifier is not attempted; the rational oracle "
                   "is applied to executed float cases only. The one-period-after-now clause is evaluated only for readings >= "
@@ -48,7 +50,7 @@ META = {
 RULE = ("drive cases: (period from 1us..days incl. non-dyadic and timedelta, start small or epoch-scale, jitter, <=30 clock "
         "readings each chosen relative to the current deadline: on time, +-1ulp, late by fraction/exact multiple(+-1ulp)/huge, "
         "backward, repeat); run cases: (period, sync|coro callback, per-invocation duration in periods and raise flag, external "
-        "stop/start/stop-at-the-tick/backward-step events, jitter). Non-trivial: a drive case with a skipping (>=2 periods) or "
+        "stop/start/stop-at-the-tick/backward-step events, jitter; with jitter also invocations overrunning up to ~10 periods). Non-trivial: a drive case with a skipping (>=2 periods) or "
         "backward step, a run case with >=2 callback runs and (a slow invocation or an external event). Distinct by the case tuple.")
 FLOORS = {"quick": 3000, "thorough": 200000}
 ASSUMPTIONS = [
@@ -57,7 +59,8 @@ ASSUMPTIONS = [
     "virtual loop: timers fire exactly at their asyncio deadline; the IOLoop clock is EPOCH + virtual time (+ injected steps)",
 ]
 REQUIRED_COUNTERS = ["oracle_evals", "drive_steps", "grid_nonvacuous", "late_skips", "backward_steps",
-                     "run_callbacks", "run_sched", "coro_slow_invocations", "stop_events"]
+                     "run_callbacks", "run_sched", "coro_slow_invocations", "stop_events",
+                     "jitter_deadlines_checked", "jitter_late_skips", "run_jitter_late_skips"]
 
 PERIODS_MS = [0.001, 0.0015, 0.01, 0.1, 1 / 3, 1.0, 2.5, 10.0, 100.0, 1000 / 3, 1000.0, 1234.5678,
               60000.0, 3600000.0, 86400000.0, 3 * 86400000.0]
@@ -112,7 +115,10 @@ DUR = [0.0, 0.0, 0.25, 0.5, 1.0, 1.5, 2.0, 2.25, 3.0]
 EXT_T = [0.25, 0.5, 1.0, 1.25, 1.5, 2.0, 2.5, 3.0, 3.75, 4.0, 5.5, 6.0]
 
 
-def gen_run(rng):
+DUR_LONG = [0.0, 0.5, 1.5, 2.25, 3.0, 3.5, 4.75, 6.0, 7.5, 10.25]
+
+
+def gen_run(rng, rng2):
     period = rng.choice([2.5, 10.0, 100.0, 1000 / 3, 1000.0, 0.1])
     kind = rng.choice(["sync", "coro", "coro"])
     n = rng.randint(1, 5)
@@ -124,15 +130,22 @@ def gen_run(rng):
         ext.append((rng.choice(EXT_T), act, rng.choice([0.5, 1.0, 2.5]) if act == "back" else 0))
     ext.sort(key=lambda e: e[0])
     jitter = 0.0 if rng.random() < 0.8 else rng.choice([0.1, 0.5, 0.9])
+    horizon = rng.choice([8, 12])
+    if jitter and rng2.random() < 0.6:
+        # jitter combined with invocations that overrun several periods (drawn from a second stream so that the
+        # other cases of the shard stay what they were)
+        durs = [rng2.choice(DUR_LONG) for _ in range(rng2.randint(1, 4))]
+        jitter = rng2.choice([0.1, 0.25, 0.5, 0.9, 1.0, round(rng2.uniform(0.05, 1.0), 3)])
+        horizon = rng2.choice([16, 30])
     return {"k": "run", "period_ms": period, "kind": kind, "durs": durs, "raises": raises, "ext": ext,
-            "jitter": jitter, "horizon": rng.choice([8, 12])}
+            "jitter": jitter, "horizon": horizon}
 
 
 def gen_cases(spec):
     rng = core.rng_for(spec["seed"], PROP, f"{spec['kind']}{spec['j']}")
-    g = gen_drive if spec["kind"] == "drive" else gen_run
+    rng2 = core.rng_for(spec["seed"], PROP, f"{spec['kind']}{spec['j']}/extra")
     for _ in range(spec["n"]):
-        yield g(rng)
+        yield gen_drive(rng) if spec["kind"] == "drive" else gen_run(rng, rng2)
 
 
 def directed_cases():
@@ -149,6 +162,14 @@ def directed_cases():
     # restart exactly at a tick: the timer has fired but the coroutine body has not started yet
     yield {"k": "run", "period_ms": 1000.0, "kind": "coro", "durs": [0.5, 0.0, 1.0], "raises": [False, False, False],
            "ext": [(1.0, "stop_start", 0)], "jitter": 0.0, "horizon": 12}
+    # jitter with overruns of several periods: not before now, at most one (jittered) period after now
+    yield {"k": "drive", "period_ms": 100.0, "td": False, "start": 1.7e9, "jitter": 0.5,
+           "steps": [("mult", 7), ("frac", 0.5), ("mult+", 3), ("huge", 86400.0), ("mult", 1000), ("ontime", 0),
+                     ("mult", 10), ("frac", 0.999999), ("mult-", 7), ("mult", 2)]}
+    yield {"k": "run", "period_ms": 100.0, "kind": "sync", "durs": [7.5, 0.0, 4.75, 10.25], "raises": [False] * 4,
+           "ext": [], "jitter": 0.9, "horizon": 30}
+    yield {"k": "run", "period_ms": 1000 / 3, "kind": "coro", "durs": [3.5, 6.0, 2.25], "raises": [False, True, False],
+           "ext": [], "jitter": 0.5, "horizon": 30}
     # restart while an invocation is still in flight
     yield {"k": "run", "period_ms": 100.0, "kind": "coro", "durs": [3.0], "raises": [False],
            "ext": [(1.5, "stop_start", 0)], "jitter": 0.0, "horizon": 12}
@@ -180,7 +201,27 @@ def check_deadline(ctx, g, o, c, n, jitter, where, wit):
     else:
         ctx.count("readings_below_deadline_unspecified_upper_bound")
     if jitter:
-        ctx.count("jitter_deadlines_monotonicity_only")
+        # The statement qualifies only the grid clause with "(without jitter)"; "not before the current time" and
+        # "at most one period after the current time while the clock has not gone backwards" hold for jittered
+        # schedules too.  The jittered period is period * (1 + jitter * (r - 0.5)) with r in [0, 1), i.e. at most
+        # period * (1 + jitter/2): that is the weakest reading of "one period" and the bound gated here.
+        ctx.count("jitter_deadlines_checked")
+        if o <= c:
+            u = F(math.ulp(max(abs(o), abs(n), abs(c))))
+            Pmax = P * (1 + F(jitter) / 2)
+            tol = 8 * u + Pmax / 2 ** 40
+            late = (F(c) - F(o)) / P
+            if late >= 2:
+                ctx.count("jitter_late_skips")
+                if where == "run":
+                    ctx.count("run_jitter_late_skips")
+            ctx.check(F(n) >= F(c) - tol, f"{where}/jitter/deadline-before-now",
+                      "with jitter: the new deadline lies before the current time by more than rounding (missed periods "
+                      "are bunched: the callback fires again immediately)", dict(w, jitter=jitter, late_periods=float(late)))
+            ctx.check(F(n) <= F(c) + Pmax + tol, f"{where}/jitter/deadline-more-than-one-jittered-period-after-now",
+                      "with jitter: clock did not go backwards, yet the new deadline is more than period*(1+jitter/2) "
+                      "after the current time", dict(w, jitter=jitter, late_periods=float(late),
+                                                    after_now_periods=float((F(n) - F(c)) / P)))
         return
     u_on = math.ulp(max(abs(o), abs(n)))
     u_all = math.ulp(max(abs(o), abs(n), abs(c)))
